@@ -45,7 +45,8 @@ ASSUMPTIONS = ['supported size family = pv/families.py',
 REQUIRED_COUNTERS = ['history_decodes', 'fresh_reference_decodes',
                      'ordered_pairs_checked', 'syndrome_digests_compared',
                      'table_digests_compared', 'sweep_restored_comparisons',
-                     'zero_after_history', 'sibling_decodes']
+                     'zero_after_history', 'sibling_decodes',
+                     'earlier_results_rechecked']
 SHARD_TIMEOUT = {'quick': 900, 'thorough': 3600}
 EXHAUSTIVE = True
 EXHAUSTIVE_SCOPE = ('all ordered pairs of valid syndromes for the (decoder, '
@@ -242,7 +243,19 @@ class Monitored:
         """s_arr is handed over as is (no copy): the caller's array."""
         out, task = self.out, self.task
         before = dg(s_arr)
-        c = quiet_decode(self.dec, s_arr)
+        with contextlib.redirect_stdout(io.StringIO()):
+            c_obj = self.dec.decode(s_arr)
+        c = np.asarray(c_obj)
+        # a correction handed out earlier must survive later decodes
+        prev = getattr(self, 'prev', None)
+        if prev is not None:
+            out.count('earlier_results_rechecked')
+            if dg(np.asarray(prev[0])) != prev[1]:
+                out.violation(mech_of(task, 'earlier-result-overwritten'),
+                              'the array returned by the previous decode '
+                              'changed during this decode',
+                              dict(desc_of(task), label=label))
+        self.prev = (c_obj, dg(c))
         self.ncalls += 1
         out.count('history_decodes')
         out.count('syndrome_digests_compared')
